@@ -5,6 +5,7 @@ import (
 	"context"
 	"errors"
 	"fmt"
+	"io"
 	"math/rand"
 	"sync"
 	"sync/atomic"
@@ -62,7 +63,12 @@ func multiPending(rec *vr.Rec, reps int, seed int64) {
 				case "put-empty-body":
 					_, err = cc.Put(ctx, path, message.TextPlain, nil)
 				default:
-					_, err = cc.Post(ctx, path, message.AppOctets, bytes.NewReader(body))
+					rd := bytes.NewReader(body)
+					if i%2 == 1 {
+						// the caller has already read its body (to hash or log it): the reader is not at offset 0
+						_, _ = rd.Seek(int64(len(body))/2+1, io.SeekStart)
+					}
+					_, err = cc.Post(ctx, path, message.AppOctets, rd)
 				}
 				_ = err
 			}()
